@@ -57,6 +57,16 @@ check("C01", "exploration",
       "adjudicated). Exceptions compared coarsely.",
       "bounded exhaustive program enumeration, differential execution (CPython vs reference GIR interpreter)", "DESIGN.md §2 C01")
 
+check("C02", "exploration",
+      "Every Core program with <=3 (thorough 4) statement nodes over int locals, + - *, comparisons, augmented assignment, if / else, "
+      "while, counted for, break, continue, return, out(e) - 2730 programs quick - rendered into Python, JavaScript, Java, C, PHP and Go, "
+      "lowered by the real lang phase (100 functions per file), and executed by ONE reference GIR interpreter (operator table per language "
+      "family) on 9 input vectors; output sequence and return value must equal the reference semantics (CPython on the Python rendering). "
+      "Plus a vocabulary check: every emitted operation must be a key of the real def-use handler table.",
+      "Ints only (no division, strings, records or arrays: those are covered for Python by C01). TypeScript has no renderer here (C03 covers "
+      "its frontend). The GIR interpreter accepts condition_prebody on while_stmt (C frontend) as it does for for_stmt.",
+      "bounded exhaustive program enumeration x frontends, differential execution against a reference semantics", "DESIGN.md §2 C02")
+
 check("C03", "exploration",
       "Deviation-bounded exhaustive mutation for 7 frontends (python, javascript, typescript, java, go, c, php): seeds = every corpus "
       "file of tests/lang_parser/<lang> (~10 k lines) + ~65 minimal per-construct programs; 0 deviations: every seed alone and all "
